@@ -433,13 +433,22 @@ Fixpoint set_assoc {A} (k : N) (v : A) (l : list (N * A)) : list (N * A) :=
   | (k', v') :: t => if N.eqb k k' then (k, v) :: t else (k', v') :: set_assoc k v t
   end.
 
-(* binary fuel: runs [step] until [fin], at most 2^(d+1) - 1 times *)
+(* binary fuel: runs [step] until [fin], at most 2^d times *)
 Fixpoint run {S} (step : S -> S) (fin : S -> bool) (d : nat) (s : S) : S :=
   match d with
   | O => if fin s then s else step s
   | S d' => let s' := run step fin d' s in if fin s' then s' else run step fin d' s'
   end.
-Definition fuel_depth : nat := 62.
+(* the loops below are Python `while` loops; their fuel is derived from the size of the input and is PROVED
+   sufficient (Blocks/FuelProofs.v): 2 ^ fuel_for b > b *)
+Definition fuel_for (bound : N) : nat := S (N.to_nat (N.log2 bound)).
+(* compute_predecessors: at most V starts, each predecessor set grows at most V-1 times, every such event queues
+   at most E edges *)
+Definition pred_fuel (nodes : list N) (es : list edge) : nat :=
+  let v := N.of_nat (length nodes) in fuel_for (v * v * (N.of_nat (length es) + 1)).
+(* order_nodes: at most V nodes are scheduled, each scheduling queues at most E nodes *)
+Definition order_fuel (nodes : list N) (es : list edge) : nat :=
+  let v := N.of_nat (length nodes) in fuel_for (v * (N.of_nat (length es) + 1) + 1).
 
 (* compute_predecessors *)
 Record pst := mkP {
@@ -475,7 +484,7 @@ Definition pstep (es : list edge) (s : pst) : pst :=
   end.
 
 Definition compute_predecessors (nodes : list N) (es : list edge) : res (list (N * list N)) :=
-  let s := run (pstep es) pfin fuel_depth (mkP (map (fun n => (n, [n])) nodes) [] nodes [] 0) in
+  let s := run (pstep es) pfin (pred_fuel nodes es) (mkP (map (fun n => (n, [n])) nodes) [] nodes [] 0) in
   match p_err s with
   | O => if pfin s then Ok (p_map s) else Err 11                   (* fuel *)
   | e => Err e
@@ -536,7 +545,7 @@ Definition order_nodes_gen (pick : queue -> N) (nodes : list N) (es : list edge)
     match assocN root pm with
     | None => Err 13
     | Some rp =>
-      let s := run (ostep pick pm es) ofin fuel_depth (mkO [(root, rp)] [] [] 0) in
+      let s := run (ostep pick pm es) ofin (order_fuel nodes es) (mkO [(root, rp)] [] [] 0) in
       match o_err s with
       | O =>
         if ofin s then
